@@ -494,6 +494,12 @@ def _outcome(v):
     return "held" if not v else "+".join(sorted(s for s, _ in v))
 
 
+def _dbg(msg):
+    import os
+    if os.environ.get("VERIF_DEBUG"):
+        print(f"[c19 {time.strftime('%H:%M:%S')}] {msg}", file=sys.stderr, flush=True)
+
+
 def main(run):
     from vlib import core, pool
     from vlib.gen import omml as O
@@ -575,6 +581,7 @@ def main(run):
             obs[it["i"]] = it
             if it.get("hang"):
                 hangs.append(it["i"])
+    _dbg(f"tree phase done: obs={len(obs)} retry={len(retry)} hangs={len(hangs)}")
     if broken:
         return
     if len(retry) > 600:
@@ -598,6 +605,7 @@ def main(run):
             else:
                 obs[i] = {"_bad": "worker-died", "detail": core.jdump(ob)[:400]}
 
+    _dbg("retry phase done")
     # ------------------------------------------------------------------ verdicts
     verdicts: dict[int, list] = {}
     for i, ob in obs.items():
@@ -657,6 +665,7 @@ def main(run):
                 rep["twin_verdict"] = verdicts.get(m.get("twin"))
             run.violation(key, f"[{m['family']}] {detail} | xml {O.to_xml(specs[i])[:700]}", rep)
 
+    _dbg("verdicts done")
     # ------------------------------------------------------------------ the symbol table itself (finite, complete)
     ascii_pass = "".join(chr(c) for c in range(32, 127))
     for case, ob in pool.run_cases("checks.c19:work", [{"mode": "table", "chars": O.SYMBOL_CHARS + list(ascii_pass), "joined": "".join(O.SYMBOL_CHARS)}], workers=1):
@@ -677,7 +686,9 @@ def main(run):
         run.count(f"probe_outside_quantifier:nesting-depth-{case['depth']}:{ob.get('outcome', 'worker-problem')}")
 
     # ------------------------------------------------------------------ integration: formulas inside docx / pptx
+    _dbg("probes done")
     integ = _integration(run, O, pool, core, specs, meta, obs, integ_pool, tok)
+    _dbg("integration done")
     evals += integ
 
     # ------------------------------------------------------------------ thresholds, extras
